@@ -178,6 +178,16 @@ def to_contract(qualname, hs, vidx, command=None, extra_requires=(), check_wf=Tr
             raises[kind] = cl
     pre_lets = dict(PRE_LETS)
     pre_lets.update(hs.pre_lets)
+    ct = _to_contract(qualname, hs, params, ensures, raises, pre_lets, vidx, command, extra_requires, check_wf)
+    # C04: "a message that refers to a node or child not in the registry ... fails with an error that names that node or child":
+    # in such a pre-state no exception the contract does not list may escape instead (C03 owns the escape itself: raises-only)
+    missing = [f"old({o.guard})" for o in hs.outs if o.kind in ("MissingNodeError", "MissingChildError")]
+    if missing:
+        ct.unexpected_exc = [P("C04/unknown-node-or-child-is-named", "not (" + " or ".join(missing) + ")")]
+    return ct
+
+
+def _to_contract(qualname, hs, params, ensures, raises, pre_lets, vidx, command, extra_requires, check_wf):
     return Contract(qualname, params=params,
                     requires=handler_requires(vidx, command) + list(hs.requires) + list(extra_requires),
                     modifies=sorted(set(hs.modifies), key=str) + GHOST_LOG + ["ghost.clock_now", "ghost.wcnt"],
